@@ -360,6 +360,33 @@ func (cs *CondSpace) formulaOf(v ssa.Value) *cformula {
 			return f
 		}
 	case *ssa.BinOp:
+		// a merged value compared with nil (err := f(); if err == nil { err = g() }; if err != nil …): the comparison is the
+		// disjunction over the phi's incoming edges of (edge taken ∧ that edge's value compared with nil)
+		if (x.Op == token.EQL || x.Op == token.NEQ) && cs.phiDepth < 3 {
+			ph, isPhi := x.X.(*ssa.Phi)
+			other := x.Y
+			if !isPhi {
+				ph, isPhi = x.Y.(*ssa.Phi)
+				other = x.X
+			}
+			if isPhi && isNilConst(other) && !cs.backTo[ph.Block()] {
+				cs.phiDepth++
+				f := &cformula{op: 'p', phi: ph}
+				for _, e := range ph.Edges {
+					if isNilConst(e) {
+						if x.Op == token.EQL {
+							f.subs = append(f.subs, &cformula{op: 'T'})
+						} else {
+							f.subs = append(f.subs, &cformula{op: 'F'})
+						}
+						continue
+					}
+					f.subs = append(f.subs, cs.formulaOf(&ssa.BinOp{Op: x.Op, X: e, Y: other}))
+				}
+				cs.phiDepth--
+				return f
+			}
+		}
 		if (x.Op == token.EQL || x.Op == token.NEQ) && isBool(x.X.Type()) {
 			op := byte('=')
 			if x.Op == token.NEQ {
@@ -775,4 +802,59 @@ func isLogVerbosity(v ssa.Value) bool {
 		return false
 	}
 	return strings.HasSuffix(shortType(call.Call.Value.Type()), "grpclog.LoggerV2")
+}
+
+// VRet is one way of leaving the function: a return together with concrete (phi-free) result values and the
+// condition under which that combination is taken.
+type VRet struct {
+	Ret  *ssa.Return
+	Cond Bits
+	Vals []ssa.Value
+}
+
+// VirtualReturns splits every return whose results are phis (single-exit style: `return bytes, err` after nested
+// ifs) into one virtual return per combination of incoming edges, so that rules written for early-return code apply
+// unchanged to merged exits. Loop-carried phis are left alone.
+func (cs *CondSpace) VirtualReturns() []VRet {
+	var out []VRet
+	var expand func(r *ssa.Return, vals []ssa.Value, cond Bits, depth int)
+	expand = func(r *ssa.Return, vals []ssa.Value, cond Bits, depth int) {
+		if !cs.Satisfiable(cond) {
+			return
+		}
+		var ph *ssa.Phi
+		if depth < 6 {
+			for _, v := range vals {
+				if q, ok := stripConv(v).(*ssa.Phi); ok && !cs.backTo[q.Block()] {
+					ph = q
+					break
+				}
+			}
+		}
+		if ph == nil {
+			out = append(out, VRet{Ret: r, Cond: cond, Vals: vals})
+			return
+		}
+		blk := ph.Block()
+		for i, pred := range blk.Preds {
+			edge := cs.False()
+			for si, sb := range pred.Succs {
+				if sb == blk {
+					edge = or(edge, cs.EdgeCond(pred, si))
+				}
+			}
+			nv := make([]ssa.Value, len(vals))
+			for k, v := range vals {
+				nv[k] = v
+				if q, ok := stripConv(v).(*ssa.Phi); ok && q.Block() == blk {
+					nv[k] = q.Edges[i]
+				}
+			}
+			expand(r, nv, and(cond, edge), depth+1)
+		}
+	}
+	for _, r := range returnsOf(cs.Fn) {
+		expand(r, append([]ssa.Value(nil), r.Results...), cs.Reach(r), 0)
+	}
+	return out
 }
